@@ -571,3 +571,87 @@ def run(res, facts, tier):
     r2_producers(res, facts)
     r3_r4_comparisons(res, facts)
     r5_grammar(res, facts)
+
+
+# ----------------------------------------------------------------------------------------------- R7: position() cache coherence
+LIST_SHIFTERS = {'clearNulls', 'clear', 'addNode', 'addNodeInDocOrder', 'addNodesInDocOrder', 'addNodes', 'removeNode', 'insertNode', 'swap', 'reverse', 'operator='}
+INVALIDATORS = {'pushContextNodeList', 'popContextNodeList'}
+
+
+def r7_position_cache(res, facts):
+    from ..mast import CFG
+    r = res.rule('C02-R7', 'position() cache coherence: the one-entry (node -> position) cache of the execution context is flushed whenever the current context node list '
+                 'changes identity (push / pop) or content (in-place filtering between two predicates of one step)', floor=3)
+    # (a) functions of XPathExecutionContextDefault that change which list is current flush the cache on every path
+    changers = set()
+    for w in facts.W:
+        if short(w['field']) == 'XPathExecutionContextDefault::m_contextNodeListStack' and w['kind'] in ('call:push_back', 'call:pop_back', 'call:clear', 'call:swap', 'assign'):
+            f = facts.F.get(w['from'], {})
+            if f.get('kind') == 'method':
+                changers.add(w['from'])
+    if not changers:
+        raise AnalysisBroken('no function changes m_contextNodeListStack')
+    for k in sorted(changers, key=lambda k: facts.name[k]):
+        a = facts.ast(k)
+        cfg = CFG(a)
+
+        def flushes(n):
+            if n.ast is None:
+                return False
+            for c in calls(n.ast):
+                o = strip_casts(c.get('obj')) if c.get('obj') is not None else None
+                if c.get('n') in ('clear', 'reset') and o is not None and o.get('m') == 'm_cachedPosition':
+                    return True
+            return False
+        site = '%s flushes the position cache' % short(facts.name[k])
+        seen = cfg.reachable_avoiding([cfg.entry], flushes)
+        if cfg.exit.id in seen:
+            r.violation(site, 'the current context node list changes but a path leaves the cached (node -> position) pair in place: the next position() for that node '
+                        'returns its position in another list (node lists are pooled and reused)', common.file_line(a))
+        else:
+            r.ok(site)
+    # (b) in XPath::predicates, after the list has been compacted / rebuilt, the cache is flushed before the next predicate is evaluated
+    for a in facts.asts('XPath::predicates'):
+        lst = [p for p in a['params'] if 'MutableNodeRefList' in p['ty']]
+        if not lst:
+            continue
+        lid = lst[0]['id']
+        cfg = CFG(a)
+
+        def invalidates(n):
+            if n.ast is None:
+                return False
+            if n.ast.get('k') == 'Decl' and any('ContextNodeListPushAndPop' in v['ty'] for v in n.ast['vars']):
+                return True
+            return any(c.get('n') in INVALIDATORS for c in calls(n.ast))
+
+        def evaluates(n):
+            return n.ast is not None and any(c.get('n') in ('predicate', 'executeMore') and 'XPath' in (c.get('cls') or '') for c in calls(n.ast))
+        shifters = []
+        for n in cfg.nodes:
+            if n.ast is None:
+                continue
+            for c in calls(n.ast):
+                o = strip_casts(c.get('obj')) if c.get('obj') is not None else None
+                if c.get('n') in LIST_SHIFTERS and o is not None and o.get('id') == lid:
+                    shifters.append((n, c))
+        if not shifters:
+            raise AnalysisBroken('XPath::predicates: no in-place filtering of the node list found')
+        for n, c in shifters:
+            seen = cfg.reachable_avoiding([n], invalidates)
+            hit = [cfg.nodes[i] for i in seen if evaluates(cfg.nodes[i])]
+            site = 'XPath::predicates: %s.%s() then next predicate' % (lst[0]['n'], c.get('n'))
+            if hit:
+                r.violation(site, 'the node list is changed in place and the next predicate is evaluated without flushing the position cache: position() can answer with the '
+                            'node\'s position before the change (item[position()>3][position()=1])', common.file_line(a, c))
+            else:
+                r.ok(site)
+    return r
+
+
+_run_c02_16 = run
+
+
+def run(res, facts, tier):
+    _run_c02_16(res, facts, tier)
+    r7_position_cache(res, facts)
